@@ -396,6 +396,10 @@ def run(prog, rep, tier):
     rep.floor('TRUNC-combine', 5)
     rep.floor('TRUNC-mask-shape', 5)
     rep.assumptions += ['numerical statements about spectra are NOT decided']
+    rep.rule('TRUNC-eps-reference', 'a relative truncation error is normalised by the norm of the '
+             'tensor it approximates')
+    if check_eps_reference(prog, rep) < 1:
+        raise AnalysisError('TRUNC-eps-reference: eps of decompose_theta_qr_based not found')
     from ..flow import check_dead_computations
     rep.rule('VALUE-dead', 'no result of a call is bound to a local that is never read (reaching '
              'definitions)')
@@ -409,6 +413,55 @@ def run(prog, rep, tier):
         explanation='Constraint pipeline of truncate() and the renormalisation/projection pairing '
         'of svd_theta/_eig_based_svd/eigh_rho decided structurally on the current source; the '
         'documented priority is read from the docstring of truncate().')
+
+
+
+# ------------------------------------------------------------------ TRUNC-eps-reference
+def check_eps_reference(prog, rep):
+    """A truncation error reported as eps = |x - x_approx|^2 / N^2 is RELATIVE TO x: the
+    normalisation N is the norm of the approximated tensor itself (the minuend), not of a factor of
+    the decomposition (whose norm is that of the projected, i.e. already truncated, tensor)."""
+    m = prog.module('tenpy/linalg/truncation.py')
+    n = 0
+    for q, f in sorted(m.functions.items()):
+        defs = {}
+        for st in ast.walk(f):
+            if isinstance(st, ast.Assign) and len(st.targets) == 1 and isinstance(
+                    st.targets[0], ast.Name):
+                defs.setdefault(st.targets[0].id, []).append(st.value)
+        for st in ast.walk(f):
+            if not (isinstance(st, ast.Assign) and len(st.targets) == 1 and isinstance(
+                    st.targets[0], ast.Name) and st.targets[0].id == 'eps'):
+                continue
+            subs = [x for x in ast.walk(st.value) if isinstance(x, ast.BinOp) and
+                    isinstance(x.op, ast.Sub)]
+            if not subs:
+                continue
+
+            def base(e):
+                while isinstance(e, ast.BinOp) and isinstance(e.op, (ast.Div, ast.Mult)):
+                    e = e.left
+                return e.id if isinstance(e, ast.Name) else None
+            minuend = base(subs[0].left)
+            if minuend is None:
+                continue
+            divisors = {x.right.id for x in ast.walk(st.value) if isinstance(x, ast.BinOp) and
+                        isinstance(x.op, ast.Div) and isinstance(x.right, ast.Name)}
+            for dv in sorted(divisors):
+                ds = defs.get(dv, [])
+                if len(ds) != 1 or not (isinstance(ds[0], ast.Call) and unparse(ds[0].func) in (
+                        'npc.norm', 'np.linalg.norm', 'norm') and ds[0].args):
+                    continue
+                of = unparse(ds[0].args[0])
+                n += 1
+                rep.instance('TRUNC-eps-reference', {'function': q, 'normalisation': dv,
+                                                     'norm_of': of, 'approximated': minuend})
+                if of != minuend:
+                    rep.violation('TRUNC-eps-reference', m, q, 'norm-of:' + of,
+                                  'eps compares `%s` with its approximation but is normalised by '
+                                  'norm(%s): the reported truncation error is not relative to the '
+                                  'tensor that was truncated' % (minuend, of), st.lineno)
+    return n
 
 
 # ------------------------------------------------------------------ TRUNC-scale: homogeneity
